@@ -1,5 +1,663 @@
 package contractcourt
 
-import "verif/simcore"
+// Property C12: the node goes on chain before HTLC deadlines and disposes of
+// every HTLC once. See closesim_c12_world.go for the machinery.
 
-func zzRunC12(r *simcore.Run) { r.Harness("C12 not built yet") }
+import (
+	"fmt"
+	"sort"
+	"sync"
+	"testing"
+	"time"
+
+	"github.com/btcsuite/btcd/wire/v2"
+
+	"verif/simcore"
+)
+
+// ---------------------------------------------------------------------------
+// a *testing.T for testing/synctest (the worker entry point owns the real one
+// and never returns; we obtain a second one the same way `go test` does)
+
+var (
+	zzTOnce sync.Once
+	zzTVal  *testing.T
+)
+
+func zzGetT() *testing.T {
+	zzTOnce.Do(func() {
+		ready := make(chan struct{})
+		go testing.RunTests(
+			func(pat, str string) (bool, error) { return true, nil },
+			[]testing.InternalTest{{Name: "TestVerifRun", F: func(t *testing.T) {
+				zzTVal = t
+				close(ready)
+				select {} // lives as long as the worker
+			}}},
+		)
+		<-ready
+	})
+	return zzTVal
+}
+
+func zzRunC12(r *simcore.Run) {
+	t := zzGetT()
+	zzInBubble(t, r, func() { zzC12Run(r, t) })
+}
+
+// ---------------------------------------------------------------------------
+// configuration (swarm)
+
+type zzC12Cfg struct {
+	world     zzWorldCfg
+	maxSteps  int
+	initSteps int
+}
+
+func zzDrawModel(r *simcore.Run) (*zzModel, zzC12Cfg) {
+	tp := r.Tape
+	m := &zzModel{}
+	var c zzC12Cfg
+	m.anchors = tp.CfgDraw(2) == 0
+	c.world.outDelta = []uint32{0, 1, 3, 5, 10}[tp.CfgDraw(5)]
+	c.world.inDelta = []uint32{0, 1, 4, 10, 12}[tp.CfgDraw(5)]
+	c.world.grace = []time.Duration{0, 30 * time.Minute, 2 * time.Hour}[tp.CfgDraw(3)]
+	c.world.perBlock = []time.Duration{0, 10 * time.Minute, 45 * time.Minute}[tp.CfgDraw(3)]
+	m.csv = uint32(1 + tp.CfgDraw(20))
+	m.expiryMin = -2
+	m.expiryMax = 3 + 5*tp.CfgDraw(3)
+	m.outDelta, m.inDelta = c.world.outDelta, c.world.inDelta
+	m.maxHtlcs = []int{2, 4, 7}[tp.CfgDraw(3)]
+	m.startH = uint32(1000 + tp.CfgDraw(500))
+	m.ourBalL = tp.CfgDraw(4) != 0
+	m.ourBalR = tp.CfgDraw(4) != 0
+	m.baseAmt = 1_000_000
+	c.initSteps = tp.CfgDraw(10)
+	c.maxSteps = 10 + tp.CfgDraw(16)
+	for i := 0; i < c.initSteps; i++ {
+		switch tp.CfgDraw(3) {
+		case 0:
+			if m.hasP {
+				m.remoteRevoke()
+			} else {
+				m.signRemote(tp.CfgDraw, m.startH)
+			}
+		case 1:
+			m.localAdvance(tp.CfgDraw, m.startH)
+		default:
+			if m.hasP {
+				m.remoteRevoke()
+			}
+		}
+	}
+	return m, c
+}
+
+// ---------------------------------------------------------------------------
+// the run
+
+type zzC12 struct {
+	r *simcore.Run
+	w *zzWorld
+
+	closeStim   int
+	sawFC       bool
+	postBlocks  int
+	lastFCCount int
+}
+
+func (x *zzC12) fcCount() int {
+	n := 0
+	for _, e := range x.w.effects {
+		if e.kind == "fc" {
+			n++
+		}
+	}
+	return n
+}
+
+func zzC12Run(r *simcore.Run, t *testing.T) {
+	m, cfg := zzDrawModel(r)
+	r.Arm = map[bool]string{true: "anchors", false: "legacy"}[m.anchors]
+	w := zzNewWorld(r, t, m, cfg.world)
+	w.trace = true
+	x := &zzC12{r: r, w: w}
+	defer w.kill()
+
+	r.Logf("cfg anchors=%v outDelta=%d inDelta=%d grace=%v perBlock=%v csv=%d startH=%d htlcs=%d hasP=%v",
+		m.anchors, cfg.world.outDelta, cfg.world.inDelta, cfg.world.grace, cfg.world.perBlock, m.csv, m.startH, m.live(), m.hasP)
+	x.logSets()
+
+	// stimulus 1: the arbitrator starts at the current height
+	w.nextStim("start")
+	w.boot()
+	x.afterBlockLike(0)
+
+	steps := 0
+	for steps < cfg.maxSteps && r.Step() {
+		steps++
+		if w.closeDelivered != "" {
+			// after the close: a few more blocks, then stop
+			if x.postBlocks >= 3 {
+				r.Kind("idle")
+				break
+			}
+			x.postBlocks++
+			r.Kind("block")
+			x.block(1)
+			continue
+		}
+		ops := x.enabled()
+		op := ops[r.Draw(len(ops))]
+		r.Kind(op)
+		x.apply(op)
+	}
+	x.finalChecks()
+
+	total := len(m.htlcs)
+	r.Nontrivial = (x.fcCount() > 0 || w.closeDelivered != "") && total > 0
+	if w.inc != nil && w.inc.sched.ties > 0 {
+		r.Add("sched_ties", int64(w.inc.sched.ties))
+	}
+}
+
+func (x *zzC12) logSets() {
+	m := x.w.m
+	for s := 0; s < 3; s++ {
+		if s == zzSetP && !m.hasP {
+			continue
+		}
+		var parts []string
+		for _, h := range m.members(s) {
+			d := ""
+			if h.dust[s] {
+				d = " dust"
+			}
+			k := ""
+			if m.known(h.hashNo) {
+				k = " known"
+			}
+			f := ""
+			if !h.incoming && h.fwd {
+				f = " fwd"
+			}
+			parts = append(parts, fmt.Sprintf("%v%s%s%s", h, d, k, f))
+		}
+		x.r.Logf("  set %s: %v", zzSetName[s], parts)
+	}
+}
+
+func (x *zzC12) enabled() []string {
+	w, m := x.w, x.w.m
+	ops := []string{"block", "block", "block", "skip"}
+	fc := x.fcCount()
+	if !w.frozen {
+		if m.hasP {
+			ops = append(ops, "proto-revoke")
+		} else {
+			ops = append(ops, "proto-sign")
+		}
+		ops = append(ops, "proto-local")
+		if fc == 0 {
+			for _, k := range m.know {
+				if k == zzKnowNone {
+					ops = append(ops, "learn")
+					break
+				}
+			}
+		}
+	}
+	// close triggers are the rarer choice (a zeroed draw means none)
+	if !x.r.Chance(1, 3) {
+		return ops
+	}
+	if !w.userAsked {
+		ops = append(ops, "user")
+	}
+	ops = append(ops, "close-remote")
+	hasP := m.hasP
+	if w.frozen {
+		hasP = w.commits[zzSetP] != nil
+	}
+	if hasP {
+		ops = append(ops, "close-remote-pending")
+	}
+	if fc > 0 {
+		ops = append(ops, "close-local", "close-local")
+	}
+	ops = append(ops, "close-breach")
+	if m.live() == 0 && fc == 0 {
+		ops = append(ops, "close-coop")
+	}
+	return ops
+}
+
+func (x *zzC12) block(n int) {
+	w := x.w
+	w.height += uint32(n)
+	w.clk.SetTime(w.clk.Now().Add(time.Duration(n) * w.cfg.perBlock))
+	w.nextStim(fmt.Sprintf("block height=%d uptime=%v", w.height, w.clk.Now().Sub(w.startedAt)))
+	before := x.fcCount()
+	w.beat()
+	x.afterBlockLike(before)
+}
+
+func (x *zzC12) apply(op string) {
+	w, m, r := x.w, x.w.m, x.r
+	switch op {
+	case "block":
+		x.block(1)
+	case "skip":
+		x.block(2 + r.Draw(6))
+	case "proto-sign":
+		w.nextStim("we sign a new remote commitment")
+		m.signRemote(r.Draw, w.height)
+		w.sendUpdates(zzSetP)
+		x.logSets()
+	case "proto-revoke":
+		w.nextStim("peer revokes")
+		m.remoteRevoke()
+		w.sendUpdates(zzSetR)
+		x.logSets()
+	case "proto-local":
+		w.nextStim("peer signs, we revoke")
+		m.localAdvance(r.Draw, w.height)
+		w.sendUpdates(zzSetL)
+		x.logSets()
+	case "learn":
+		var cand []int
+		for no, k := range m.know {
+			if k == zzKnowNone {
+				cand = append(cand, no)
+			}
+		}
+		no := cand[r.Draw(len(cand))]
+		m.know[no] = []int{zzKnowBeacon, zzKnowInvoice}[r.Draw(2)]
+		w.nextStim(fmt.Sprintf("preimage of hash%d becomes known (%d)", no, m.know[no]))
+		r.Count("probe_preimage_learned")
+	case "user":
+		w.nextStim("user requests force close")
+		w.userAsked = true
+		before := x.fcCount()
+		w.userClose()
+		if x.fcCount() > before {
+			r.Count("probe_user_force_close")
+		}
+	default:
+		kind := op[len("close-"):]
+		w.closeHeight = w.height
+		w.nextStim("close event: " + kind + " commitment confirmed")
+		w.closeDelivered = kind
+		x.closeStim = w.stim
+		if x.fcCount() > 0 {
+			r.Count("probe_close_after_broadcast")
+		}
+		w.deliverClose(kind)
+		r.Count("probe_close_" + kind)
+		x.afterClose()
+	}
+}
+
+// ---------------------------------------------------------------------------
+// oracle 1 and 2: must close / must not close
+
+// cutoffPassed: expiry - delta <= height (heights >= 1000, no wrap).
+func zzPast(expiry, delta, height uint32) bool { return expiry-delta <= height }
+
+func (x *zzC12) uptime() time.Duration { return x.w.clk.Now().Sub(x.w.startedAt) }
+
+// mustClose returns the HTLC of the LOCAL commitment that obliges the node to
+// have gone on chain by now (empty string: none).
+func (x *zzC12) mustClose() string {
+	w, m := x.w, x.w.m
+	for _, h := range m.members(zzSetL) {
+		if !h.incoming {
+			if zzPast(h.expiry, w.cfg.outDelta, w.height) && (h.fwd || x.uptime() > w.cfg.grace) {
+				return h.String()
+			}
+		} else if m.known(h.hashNo) && zzPast(h.expiry, w.cfg.inDelta, w.height) {
+			return h.String()
+		}
+	}
+	return ""
+}
+
+// mayClose returns a justification for going on chain at this height, looking
+// at all three commitments (one-sided: anything that could justify it).
+func (x *zzC12) mayClose() (string, bool) {
+	w, m := x.w, x.w.m
+	onlyOwnInGrace := true
+	why := ""
+	for s := 0; s < 3; s++ {
+		for _, h := range m.members(s) {
+			if !h.incoming && zzPast(h.expiry, w.cfg.outDelta, w.height) {
+				why = h.String()
+				if h.fwd || x.uptime() >= w.cfg.grace {
+					onlyOwnInGrace = false
+				}
+			}
+			if h.incoming && m.known(h.hashNo) && zzPast(h.expiry, w.cfg.inDelta, w.height) {
+				why = h.String()
+				onlyOwnInGrace = false
+			}
+		}
+	}
+	return why, why != "" && onlyOwnInGrace
+}
+
+// afterBlockLike judges a delivered height (start-up or block beat).
+func (x *zzC12) afterBlockLike(fcBefore int) {
+	w, r := x.w, x.r
+	fc := x.fcCount()
+	r.State(fmt.Sprintf("%v/L%d/R%d/P%d/%s", w.inc.arb.state, len(w.m.members(0)), len(w.m.members(1)), len(w.m.members(2)), w.closeDelivered))
+	if w.closeDelivered != "" {
+		return
+	}
+	if why := x.mustClose(); why != "" {
+		r.Count("probe_must_close_cell")
+		if fc == 0 {
+			r.Fail("no-force-close", "height %d processed, %s on the local commitment is past its broadcast cut-off "+
+				"(outDelta=%d inDelta=%d uptime=%v grace=%v) but ForceCloseChan was never invoked (arbitrator state %v)",
+				w.height, why, w.cfg.outDelta, w.cfg.inDelta, x.uptime(), w.cfg.grace, w.inc.arb.state)
+		}
+	}
+	if fc > fcBefore && !w.userAsked {
+		why, inGrace := x.mayClose()
+		if why == "" {
+			x.logSets()
+			r.Fail("needless-force-close", "ForceCloseChan invoked at height %d although no offered HTLC and no received HTLC "+
+				"with a known preimage is past its cut-off on any commitment (outDelta=%d inDelta=%d)",
+				w.height, w.cfg.outDelta, w.cfg.inDelta)
+		}
+		if inGrace {
+			r.Fail("force-close-within-grace", "ForceCloseChan invoked at height %d: the only HTLCs past their cut-off are our own "+
+				"payments (e.g. %s) and the node is up for %v < grace period %v", w.height, why, x.uptime(), w.cfg.grace)
+		}
+		r.Count("probe_chain_triggered_force_close")
+	}
+	if fc == 0 {
+		// expired but unclaimable received HTLC present and no close: the interesting negative cell
+		for _, h := range w.m.members(zzSetL) {
+			if h.incoming && !w.m.known(h.hashNo) && zzPast(h.expiry, w.cfg.inDelta, w.height) {
+				r.Count("probe_unclaimable_received_past_cutoff_no_close")
+				break
+			}
+		}
+	}
+}
+
+// ---------------------------------------------------------------------------
+// oracle 3: after a commitment confirmed
+
+func (x *zzC12) confSet() int {
+	switch x.w.closeDelivered {
+	case "local":
+		return zzSetL
+	case "remote":
+		return zzSetR
+	case "remote-pending":
+		return zzSetP
+	}
+	return -1
+}
+
+type zzResKey struct {
+	incoming bool
+	id       uint64
+	op       wire.OutPoint
+}
+
+func zzHtlcResolverKey(res ContractResolver) (zzResKey, bool) {
+	switch v := res.(type) {
+	case *htlcTimeoutResolver:
+		return zzResKey{false, v.htlc.HtlcIndex, v.HtlcPoint()}, true
+	case *htlcOutgoingContestResolver:
+		return zzResKey{false, v.htlc.HtlcIndex, v.HtlcPoint()}, true
+	case *htlcSuccessResolver:
+		return zzResKey{true, v.htlc.HtlcIndex, v.HtlcPoint()}, true
+	case *htlcIncomingContestResolver:
+		return zzResKey{true, v.htlc.HtlcIndex, v.HtlcPoint()}, true
+	}
+	return zzResKey{}, false
+}
+
+func (x *zzC12) afterClose() {
+	x.checkResolvers()
+	x.checkFailBacks(false)
+}
+
+func (x *zzC12) expectedResolvers() map[zzResKey]*zzHtlc {
+	w := x.w
+	conf := x.confSet()
+	exp := map[zzResKey]*zzHtlc{}
+	c := w.commits[conf]
+	for _, h := range w.m.members(conf) {
+		oi, ok := c.outIdx[h.uid]
+		if !ok {
+			continue
+		}
+		exp[zzResKey{h.incoming, h.id, wire.OutPoint{Hash: c.txid, Index: uint32(oi)}}] = h
+	}
+	return exp
+}
+
+func (x *zzC12) checkResolvers() {
+	w, r := x.w, x.r
+	conf := x.confSet()
+	if conf < 0 {
+		return
+	}
+	exp := x.expectedResolvers()
+	var batch *zzInsert
+	for i := range w.inserts {
+		if w.inserts[i].stim >= x.closeStim {
+			batch = &w.inserts[i]
+			break
+		}
+	}
+	name := zzSetName[conf]
+	if batch == nil {
+		if len(exp) > 0 {
+			r.Fail("htlc-without-resolver", "%s commitment confirmed with %d HTLC output(s) but no contract resolvers were inserted "+
+				"(arbitrator state %v)", name, len(exp), w.inc.arb.state)
+		}
+		return
+	}
+	seen := map[zzResKey]int{}
+	for _, res := range batch.resolvers {
+		k, ok := zzHtlcResolverKey(res)
+		if !ok {
+			continue
+		}
+		seen[k]++
+		if _, want := exp[k]; !want {
+			r.Fail("resolver-for-nothing", "%s commitment confirmed: resolver %s does not correspond to an HTLC output of that commitment",
+				name, zzResolverName(res))
+		}
+		if seen[k] > 1 {
+			r.Fail("duplicate-resolver", "%s commitment confirmed: %d resolvers for %s", name, seen[k], zzResolverName(res))
+		}
+	}
+	var missing []string
+	for k, h := range exp {
+		if seen[k] == 0 {
+			missing = append(missing, fmt.Sprintf("%v@%v", h, k.op.Index))
+		}
+	}
+	sort.Strings(missing)
+	if len(missing) > 0 {
+		r.Fail("htlc-without-resolver", "%s commitment confirmed: HTLC output(s) %v got no on-chain resolver", name, missing)
+	}
+	if len(exp) > 0 {
+		r.Count("probe_confirmed_with_htlc_outputs")
+	}
+	// later inserts (checkpoints) may only concern the same contracts
+	for _, ins := range w.inserts {
+		if ins.stim < x.closeStim {
+			for _, res := range ins.resolvers {
+				r.Fail("resolver-before-close", "resolver %s inserted before any commitment confirmed", zzResolverName(res))
+			}
+			continue
+		}
+		for _, res := range ins.resolvers {
+			if k, ok := zzHtlcResolverKey(res); ok {
+				if _, want := exp[k]; !want {
+					r.Fail("resolver-for-nothing", "%s commitment confirmed: resolver %s checkpointed later does not correspond to an HTLC output",
+						name, zzResolverName(res))
+				}
+			}
+		}
+	}
+}
+
+// checkFailBacks compares the upstream failures delivered so far with the
+// expectation; final=true additionally demands that nothing is missing.
+func (x *zzC12) checkFailBacks(final bool) {
+	w, r, m := x.w, x.r, x.w.m
+	conf := x.confSet()
+	fails := map[uint64]int{}
+	for _, e := range w.effects {
+		switch e.kind {
+		case "msg-fail":
+			fails[e.idx]++
+			if e.what != "" {
+				r.Fail("wrong-resolution-msg", "resolution message for htlc %d: %s", e.idx, e.what)
+			}
+		case "msg-settle", "msg-both", "msg-empty":
+			r.Fail("wrong-resolution-msg", "%s delivered for htlc %d although nothing was spent on chain", e.kind, e.idx)
+		}
+	}
+	if conf < 0 {
+		// breach / coop / none: only look for failures of unknown HTLCs
+		for idx, n := range fails {
+			if n > 1 && w.closeDelivered == "breach" {
+				r.Count("probe_breach_duplicate_fail_back")
+			}
+			found := false
+			for _, h := range m.htlcs {
+				if !h.incoming && h.id == idx {
+					found = true
+				}
+			}
+			if !found {
+				r.Fail("fail-back-unknown-htlc", "upstream failure for offered HTLC index %d which never existed", idx)
+			}
+		}
+		return
+	}
+	name := zzSetName[conf]
+	for _, h := range m.htlcs {
+		if h.incoming {
+			continue
+		}
+		onC := !h.gone && h.in[conf]
+		onOther := false
+		for s := 0; s < 3; s++ {
+			if s != conf && w.commits[s] != nil && !h.gone && h.in[s] {
+				onOther = true
+			}
+		}
+		n := fails[h.id]
+		delete(fails, h.id)
+		switch {
+		case onC && !h.dust[conf]:
+			if n > 0 {
+				r.FailOrKnown("fail-back-claimable", zzFailSig(x, h, conf),
+					"%s commitment confirmed: %v still has an output on it but was failed back upstream %d time(s)", name, h, n)
+			}
+		case onC && h.dust[conf]:
+			r.Count("probe_offered_dust_on_confirmed")
+			if n > 1 {
+				r.Fail("fail-back-twice", "%s commitment confirmed: dust %v failed back upstream %d times", name, h, n)
+			}
+			if n == 0 {
+				r.FailOrKnown("fail-back-missing", zzFailSig(x, h, conf),
+					"%s commitment confirmed: %v is dust on it but was never failed back upstream", name, h)
+			}
+		case onOther && !m.known(h.hashNo):
+			r.Count("probe_offered_only_on_unconfirmed")
+			if n > 1 {
+				r.Fail("fail-back-twice", "%s commitment confirmed: %v (only on a non-confirmed commitment) failed back upstream %d times", name, h, n)
+			}
+			if n == 0 {
+				r.FailOrKnown("fail-back-missing", zzFailSig(x, h, conf),
+					"%s commitment confirmed: %v exists only on a non-confirmed commitment, its preimage is unknown, "+
+						"but it was never failed back upstream", name, h)
+			}
+		case onOther:
+			r.Count("probe_open_case_dangling_with_preimage")
+		default:
+			if n > 0 {
+				r.Fail("fail-back-unknown-htlc", "%v is on none of the commitments but was failed back upstream %d time(s)", h, n)
+			}
+		}
+	}
+	for idx, n := range fails {
+		r.Fail("fail-back-unknown-htlc", "upstream failure (%d) for offered HTLC index %d which never existed", n, idx)
+	}
+	// received dust on the confirmed commitment
+	finals := map[uint64][2]int{}
+	for _, e := range w.effects {
+		if e.kind == "final" {
+			v := finals[e.idx]
+			if e.ok {
+				v[1]++
+			} else {
+				v[0]++
+			}
+			finals[e.idx] = v
+		}
+	}
+	for _, h := range m.members(conf) {
+		if !h.incoming || !h.dust[conf] {
+			continue
+		}
+		r.Count("probe_received_dust_on_confirmed")
+		v := finals[h.id]
+		if v[1] > 0 {
+			r.Fail("dust-settled", "%s commitment confirmed: received dust %v recorded as settled on chain", name, h)
+		}
+		if v[0] != 1 {
+			r.Fail("received-dust-outcome", "%s commitment confirmed: received dust %v got %d final 'failed' outcomes, want exactly 1", name, h, v[0])
+		}
+	}
+	_ = final
+}
+
+// zzFailSig is a structural signature of a fail-back anomaly (for recorded
+// findings): which commitment confirmed, where the HTLC is dust, whether the
+// node had already broadcast its own commitment.
+func zzFailSig(x *zzC12, h *zzHtlc, conf int) string {
+	class := ""
+	onC := !h.gone && h.in[conf]
+	switch {
+	case onC && h.dust[conf]:
+		class = "dust-on-confirmed"
+	case onC:
+		class = "output-on-confirmed"
+	default:
+		class = "dangling-dust"
+		for s := 0; s < 3; s++ {
+			if s != conf && x.w.commits[s] != nil && !h.gone && h.in[s] && !h.dust[s] {
+				class = "dangling-output"
+			}
+		}
+	}
+	pre := "default"
+	for _, e := range x.w.effects {
+		if e.kind == "fc" && e.stim < x.closeStim {
+			pre = "broadcast"
+		}
+	}
+	return pre + "/" + class
+}
+
+func (x *zzC12) finalChecks() {
+	if x.w.closeDelivered == "" {
+		return
+	}
+	if x.confSet() >= 0 {
+		x.checkResolvers()
+	}
+	x.checkFailBacks(true)
+}
